@@ -251,3 +251,34 @@ def check_hints(prop, tier, repo, verif):
     res['wall_s'] = round(time.time() - t0, 1)
     res['checker_cmd'] = 'tools/hintprobe %d (built against the current tree): %s runs' % (mh, m.group(1))
     return res
+
+
+def check_prove_grid(prop, tier, repo, verif):
+    t0 = time.time()
+    res = {'unit': 'bounded:prove_grid', 'engine': 'bounded run of the real prover and verifier (tools/provegrid)', 'status': 'ok',
+           'failures': [], 'undecided': [], 'bounded': True,
+           'bound': ('straight-line programs of 54..66 and 120..128 swaps (trace lengths around 2^6 and 2^7, exact-fit included), a loop, deep outputs, a call; all four option sets on two programs'
+                     if tier == 'thorough' else 'straight-line programs of 58..62 and 124 swaps (exact-fit 2^k - 1 included), a loop, deep outputs, a call; default options') + '; prove, verify, byte round trip, reported security level'}
+    binp, err = build_tool(repo, verif, 'provegrid')
+    if binp is None:
+        res['status'] = 'undecided'
+        res['undecided'].append('provegrid does not build against the current tree: ' + err)
+        return res
+    p = subprocess.run([binp] + (['thorough'] if tier == 'thorough' else []), stdout=subprocess.PIPE, stderr=subprocess.PIPE, text=True)
+    m = re.search(r'SUMMARY proofs=(\d+) failures=(\d+)', p.stdout)
+    if not m:
+        res['status'] = 'undecided'
+        res['undecided'].append('provegrid gave no summary: ' + (p.stdout + p.stderr)[-400:])
+        return res
+    for ln in p.stdout.split('\n'):
+        mm = re.match(r'FAIL (\S+) (\S+) (.*)', ln)
+        if not mm:
+            continue
+        res['failures'].append({'obligation': '%s/bounded/prove_grid#%s:%s' % (prop, mm.group(1), mm.group(2)), 'message': 'successful execution not provable / verifiable: ' + mm.group(3)[:120],
+                                'rendered': ln, 'origins': ['processor/src/trace/mod.rs', 'prover/src/lib.rs', 'verifier/src/lib.rs', 'air/src/options.rs'],
+                                'failing_input': {'program': mm.group(1), 'options': mm.group(2), 'cmd': '.cache/target/debug/provegrid'}})
+    if res['failures']:
+        res['status'] = 'fail'
+    res['wall_s'] = round(time.time() - t0, 1)
+    res['checker_cmd'] = 'tools/provegrid (built against the current tree): %s proofs' % m.group(1)
+    return res
